@@ -22,16 +22,23 @@ Inductive op :=
 | OShutdown (it chosen : N)                 (* Pool.Shutdown(it); chosen = instance whose Destroy was called *)
 | OSweep                                    (* the shutdownIfIdle sweep of a runProbes round *)
 | OAtQuota                                  (* Pool.AtQuota *)
-| ORestart.                                 (* a new Pool on the same cloud *)
+| ORestart                                  (* a new Pool on the same cloud *)
+| OStuck (what : N).                        (* STUCK: an effect the previous operation must have (the model has it)
+                                               did not arrive within the watchdog deadline; the scenario ends here.
+                                               1 create 2 start command 3 landing 4 kill delivered 5 give-up
+                                               6 probe 7 destroy call 8 other *)
 
 (* observable projection: return value; Running() as (uuid, exited?); Unallocated(); CountWorkers() for
-   unknown/booting/idle/running/shutdown; Instances() as (id, state, idle behavior, last uuid, Destroy calls) *)
+   unknown/booting/idle/running/shutdown; Instances() as (id, state, idle behavior, last uuid, Destroy calls);
+   and, from the environment (not from the pool): the live crunch-run processes of the stub VMs as
+   (instance, uuid), one entry per process *)
 Record obs := mkobs {
   ob_ret : N;
   ob_running : list (N * bool);
   ob_unalloc : list (N * Z);
   ob_counts : list nat;
-  ob_inst : list (N * N * N * N * N)
+  ob_inst : list (N * N * N * N * N);
+  ob_live : list (N * N)
 }.
 
 Record mstate := mkms { ms_pool : wpool; ms_pending : list (probe0 * presp) }.
@@ -77,6 +84,7 @@ Definition apply_op (c : cfg) (o : op) (m : mstate) : N * mstate :=
   | OSweep => (0%N, mkms (pool_sweep c p) (ms_pending m))
   | OAtQuota => (bret (p_quota p), mkms p (ms_pending m))
   | ORestart => (0%N, mkms (empty_pool (p_clock p)) [])
+  | OStuck _ => (0%N, mkms p (ms_pending m))
   end.
 
 (* ---- canonical projection of the model state ---- *)
@@ -90,7 +98,8 @@ Definition project (ret : N) (p : wpool) : obs :=
         (sort_by fst (pool_unallocated p))
         [pool_count p WUnknown; pool_count p WBooting; pool_count p WIdle; pool_count p WRunning; pool_count p WShutdown]
         (sort_by (fun x => match x with (id, _, _, _, _) => id end)
-                 (map (fun w => (w_id w, st_code (w_st w), ib_code (w_ib w), w_last w, w_destroys w)) (p_workers p))).
+                 (map (fun w => (w_id w, st_code (w_st w), ib_code (w_ib w), w_last w, w_destroys w)) (p_workers p)))
+        [].
 
 Definition pairNb_eqb (a b : N * bool) : bool := N.eqb (fst a) (fst b) && Bool.eqb (snd a) (snd b).
 Definition pairNZ_eqb (a b : N * Z) : bool := N.eqb (fst a) (fst b) && Z.eqb (snd a) (snd b).
@@ -120,36 +129,68 @@ Fixpoint run_steps (c : cfg) (steps : list (op * obs)) (m : mstate) : bool :=
   | [] => true
   | (o, ob) :: r =>
       let '(ret, m') := apply_op c o m in
+      (* in the model every awaited effect arrives: a STUCK step is a disagreement *)
+      match o with OStuck _ => false | _ => true end &&
       choice_ok o (ms_pool m) && obs_eqb (project ret (ms_pool m')) ob && run_steps c r m'
   end.
 
 Definition model_b (c : case) : bool := run_steps (wc_cfg c) (wc_steps c) (mkms (empty_pool 0) []).
 
-(* ---------------- specification on the observed sequence (worker-level clause of C14) ---------------- *)
-(* StartContainer succeeded on instance id: immediately before, that instance was shown idle with
-   IdleBehavior run (never held / draining / booting / unknown / shut down) *)
+(* ---------------- specification on the observed sequence (worker-level clauses of C14 / C15) ---------------- *)
 Fixpoint find_inst (id : N) (l : list (N * N * N * N * N)) : option (N * N) :=
   match l with
   | [] => None
   | (i, st, ib, _, _) :: r => if N.eqb i id then Some (st, ib) else find_inst id r
   end.
-Definition start_ok (prev : obs) (o : op) (ob : obs) : bool :=
+
+(* instances the present pool has shut down: shown in state shutdown, or Destroy has been called on them.
+   StateShutdown is final for a worker; only a new pool (ORestart) sees the instance afresh. *)
+Definition shut_now (ob : obs) : list N :=
+  flat_map (fun x => match x with (i, st, _, _, des) => if N.eqb st 4 || negb (N.eqb des 0) then [i] else [] end) (ob_inst ob).
+Definition next_shut (shut : list N) (o : op) (ob : obs) : list N :=
+  match o with ORestart => [] | _ => shut_now ob ++ filter (fun i => memN i (map (fun x => match x with (i, _, _, _, _) => i end) (ob_inst ob))) shut end.
+
+Definition inst_ids (ob : obs) : list N := map (fun x => match x with (i, _, _, _, _) => i end) (ob_inst ob).
+(* instances whose processes the present pool has discovered: it has shown them booting (it created them: they
+   run nothing else), idle or running (a crunch-run --list answer has been applied).  An instance that went
+   from unknown straight to shutdown is NOT discovered (environment assumption A3 of C14). *)
+Definition disc_now (ob : obs) : list N :=
+  flat_map (fun x => match x with (i, st, _, _, _) => if N.eqb st 1 || N.eqb st 2 || N.eqb st 3 then [i] else [] end) (ob_inst ob).
+Definition next_disc (disc : list N) (o : op) (ob : obs) : list N :=
+  match o with ORestart => [] | _ => disc_now ob ++ filter (fun i => memN i (inst_ids ob)) disc end.
+
+Definition live_on (disc : list N) (ob : obs) : list (N * N) := filter (fun vu => memN (fst vu) disc) (ob_live ob).
+Fixpoint nodup_uuid (l : list (N * N)) : bool :=
+  match l with [] => true | x :: r => negb (existsb (fun y => N.eqb (snd x) (snd y)) r) && nodup_uuid r end.
+
+Definition step_ok (shut disc : list N) (prev : obs) (o : op) (ob : obs) : bool :=
   match o with
   | OStart it u =>
-      if N.eqb (ob_ret ob) 0 then true
-      else match find_inst (ob_ret ob - 1) (ob_inst prev) with
-           | Some (st, ib) => N.eqb st 2 && N.eqb ib 0     (* idle, run *)
-           | None => false
-           end
+      N.eqb (ob_ret ob) 0 ||
+      ((* C14: only on an instance shown idle with IdleBehavior run immediately before ... *)
+       match find_inst (ob_ret ob - 1) (ob_inst prev) with
+       | Some (st, ib) => N.eqb st 2 && N.eqb ib 0
+       | None => false
+       end &&
+       (* ... never on one this pool has shut down (even if it shows it idle again) ... *)
+       negb (memN (ob_ret ob - 1) shut) &&
+       (* ... and never while a crunch-run process of that container is alive on a discovered instance *)
+       negb (memN u (map snd (live_on disc prev))))
+  | OCreate _ _ oc =>
+      (* C15: a Create that failed in the cloud leaves no phantom capacity behind *)
+      N.eqb oc 0 || list_eqb pairNZ_eqb (ob_unalloc ob) (ob_unalloc prev)
   | _ => true
-  end.
-Fixpoint spec_steps (prev : obs) (steps : list (op * obs)) : bool :=
+  end &&
+  (* C14: at most one live crunch-run process per container on the instances the pool has discovered *)
+  nodup_uuid (live_on (next_disc disc o ob) ob).
+
+Fixpoint spec_steps (shut disc : list N) (prev : obs) (steps : list (op * obs)) : bool :=
   match steps with
   | [] => true
-  | (o, ob) :: r => start_ok prev o ob && spec_steps ob r
+  | (o, ob) :: r => step_ok shut disc prev o ob && spec_steps (next_shut shut o ob) (next_disc disc o ob) ob r
   end.
-Definition empty_obs : obs := mkobs 0 [] [] [0; 0; 0; 0; 0]%nat [].
-Definition spec_b (c : case) : bool := spec_steps empty_obs (wc_steps c).
+Definition empty_obs : obs := mkobs 0 [] [] [0; 0; 0; 0; 0]%nat [] [].
+Definition spec_b (c : case) : bool := spec_steps [] [] empty_obs (wc_steps c).
 
 Definition check_case (c : case) : N :=
   ((if model_b c then 0 else 1) + (if spec_b c then 0 else 2))%N.
@@ -162,5 +203,6 @@ Fixpoint failing_from (i : N) (cs : list case) : list (N * N) :=
 Definition failing (cs : list case) : list (N * N) := failing_from 0%N cs.
 
 Definition R (boot lok : bool) (uuids : list N) (broken stale : bool) : presp := mkpr boot lok uuids broken stale.
-Definition Ob (ret : N) (run : list (N * bool)) (un : list (N * Z)) (cnt : list nat) (inst : list (N * N * N * N * N)) : obs :=
-  mkobs ret run un cnt inst.
+Definition Ob (ret : N) (run : list (N * bool)) (un : list (N * Z)) (cnt : list nat) (inst : list (N * N * N * N * N))
+              (live : list (N * N)) : obs :=
+  mkobs ret run un cnt inst live.
